@@ -119,6 +119,8 @@ func lastStore(p *dtPath, suffix string) (string, bool) {
 func q(s string) string { return constant.MakeString(s).ExactString() }
 
 func runC09(c *Ctx, r *Report) {
+	r.Rule("C09/error-classes", "each failure site named by the property wraps the sentinel the property names (timeout / auth / connection / privilege / NETCONF / operation / platform error)", 3)
+	checkErrorClasses(c, r, "C09")
 	r.Rule("C09/version-table", "determineVersion implements the 12-cell negotiation table (selected version, delimiter installed, error class)", 12)
 	r.Rule("C09/hello", "each client hello constant carries exactly one capability, the URN of its own version, end-of-message framed; sendClientCapabilities writes the hello of the selected version", 4)
 	r.Rule("C09/open-order", "Open: channel open, server capabilities, version, client hello (once), then the reader; every error after the channel opened closes it", 5)
